@@ -259,7 +259,9 @@ def h_own_crs(res, spelling, mode, pin, req=None, anchor="default", tight=False,
 
 
 # ---- E3: another CRS, footprint as a symbolic box --------------------------------------------
-DST = {"metre": "epsg:32633", "degree": "epsg:4326", "albers": "epsg:3577", "polar": "epsg:3031", "polar_n": "epsg:3413"}
+DST = {"metre": "epsg:32633", "degree": "epsg:4326", "albers": "epsg:3577", "polar": "epsg:3031", "polar_n": "epsg:3413",
+       # CRSs that have no EPSG code
+       "moll": "ESRI:54009", "crs84": "OGC:CRS84", "sinu": "+proj=sinu +lon_0=0 +x_0=0 +y_0=0 +R=6371007.181 +units=m +no_defs"}
 
 
 def _unit_names(crs):
@@ -283,10 +285,17 @@ def _fp_box(pin, tag="fp"):
     return (l, b, l + w, b + h)
 
 
-def h_other_crs(res, dst, mode, pin, req=None, anchor="default", tight=False, fit=None, rounding="none", gcp_zoom=None):
-    """fit = [centre-pixel span x, span y, fitted scale x, scale y] (grid)"""
+def h_other_crs(res, dst, mode, pin, req=None, anchor="default", tight=False, fit=None, rounding="none", gcp_zoom=None, history=None):
+    """fit = [centre-pixel span x, span y, fitted scale x, scale y] (grid); history = CRSs whose
+    properties were read earlier in the same process (the answer may not depend on it)"""
     import odc.geo.overlap as ov
     from odc.geo.types import resxy_, xy_
+
+    for hc in history or ():
+        from odc.geo.crs import CRS as _C
+
+        c_ = _C(DST.get(hc, hc))
+        _ = (c_.units, c_.epsg, c_.dimensions, c_.geographic, c_.projected, str(c_))
 
     if gcp_zoom is None:
         g, _ = _src_gbox(res, "both")
@@ -692,6 +701,10 @@ def _other_params(tier, rng):
     for r in (["-10", "-20"], ["10", "-20"]):
         out.append(dict(res=r, dst="metre", mode="auto", pin="x"))
         out.append(dict(res=r, dst="degree", mode="explicit", pin="y", req=["1/400", "-1/400"]))
+    # targets without an EPSG code, after other such CRSs (of the other unit) were looked at in the same process
+    out.append(dict(res=["10", "-10"], dst="moll", mode="auto", pin="x", history=["crs84"]))
+    out.append(dict(res=["10", "-10"], dst="crs84", mode="auto", pin="y", fit=fits[0], history=["sinu", "moll"]))
+    out.append(dict(res=["10", "-10"], dst="sinu", mode="auto", pin="y", history=["crs84", "degree"]))
     return out
 
 
